@@ -555,7 +555,8 @@ def reshape(self, *newdims, **kwargs):
 
     assert len(newdims_unflattened) == len(set(newdims_unflattened)), "must not contain duplicate axes !"
 
-    if any(',' in ax.name for ax in o.axes):
+    renamed = any(',' in ax.name for ax in o.axes)
+    if renamed:
         # (on copies of the axes: without a flattened axis, unflatten returned this very array)
         o = o._constructor(o.values, [ax.copy() for ax in o.axes], **o.attrs)
         for ax in o.axes:
@@ -586,9 +587,10 @@ def reshape(self, *newdims, **kwargs):
         if ',' in d:
             o = o.flatten(d.split(','), insert=i)
 
-    # Replace back ';' by ','
-    for ax in o.axes:
-        ax.name = ax.name.replace(';',',')
+    # Replace back ';' by ',' (only if names were replaced above: otherwise a ';' is the user's, and the axes may be the operand's own)
+    if renamed:
+        for ax in o.axes:
+            ax.name = ax.name.replace(';',',')
 
     if o.dims != tuple(newdims):
         raise ValueError("Could not perform reshaping, read documentation for acceptable arguments")
